@@ -17,6 +17,7 @@ package service
 //@ property C10 roots (*Server).getSession, (*service).stop, (*github.com/mdzio/go-mqtt/sessions.Manager).Get, (*github.com/mdzio/go-mqtt/sessions.Manager).Del, (*github.com/mdzio/go-mqtt/sessions.Session).AddTopic, (*github.com/mdzio/go-mqtt/sessions.Session).RemoveTopic
 //@ property C06 roots github.com/mdzio/go-mqtt/topics.nextTopicLevel, (*github.com/mdzio/go-mqtt/topics.Manager).Subscribe, (*github.com/mdzio/go-mqtt/topics.Manager).Unsubscribe, (*github.com/mdzio/go-mqtt/topics.Manager).Subscribers
 //@ property C07 roots (*service).processUnsubscribe, (*github.com/mdzio/go-mqtt/message.SubackMessage).AddReturnCodes, (*github.com/mdzio/go-mqtt/message.SubackMessage).AddReturnCode, (*github.com/mdzio/go-mqtt/message.SubscribeMessage).Decode, (*github.com/mdzio/go-mqtt/message.UnsubscribeMessage).Decode, (*github.com/mdzio/go-mqtt/message.SubackMessage).Encode, (*github.com/mdzio/go-mqtt/topics.Manager).Subscribe, (*github.com/mdzio/go-mqtt/topics.Manager).Unsubscribe
+//@ property C11 roots (*Server).handleConnection, (*Server).getSession, (*github.com/mdzio/go-mqtt/message.ConnectMessage).Decode, (*github.com/mdzio/go-mqtt/message.ConnectMessage).decodeMessage, (*github.com/mdzio/go-mqtt/message.ConnectMessage).validClientID, (*github.com/mdzio/go-mqtt/message.ConnackMessage).Encode
 //@ property C19 roots (*service).processIncoming, (*service).receiver, (timeoutReader).Read
 //@ property C01 roots (*service).onPublish
 //@ property C17 roots (*service).writeMessage, (*stat).increment, (*buffer).WriteTo, (*buffer).ReadPeek, (*buffer).ReadCommit, (*buffer).ReadFrom
@@ -659,6 +660,8 @@ func vspecCovered(x int64, start int64, c int64, size int64) bool {
 //@ iface io.Closer.Close
 //@   trusted
 //@   pure
+//@   ensures[ghostdef-close] gfield(self, "nclosed") == old(gfield(self, "nclosed"))+1
+//@   modifies gfield(self, "nclosed")
 //@ extern github.com/mdzio/go-mqtt/topics.Unregister
 //@   modifies topics.providers
 //@ extern (*github.com/mdzio/go-mqtt/sessions.Session).ID
@@ -698,4 +701,61 @@ func vspecCovered(x int64, start int64, c int64, size int64) bool {
 //@   ensures[C10:resume] err == nil && !message.vspecCFClean(req.connectFlags) ==> resp.sessionPresent == (old(gfield(string(req.clientID), "sess")) != 0) && (old(gfield(string(req.clientID), "sess")) != 0 ==> svc.sess == old(gfield(string(req.clientID), "sess")))
 //@   ensures[C10:empty-id-is-clean] old(len(req.clientID)) == 0 && err == nil ==> message.vspecCFClean(req.connectFlags)
 //@   ensures[C09:will] err == nil ==> svc.sess != nil && sessions.vdefWill(svc.sess)
+//@   ensures[inv] err == nil ==> message.vdefConnSizes(req) && len(req.mtypeflags) == 1
 //@   modifies svc.sess, req.clientID, req.connectFlags, req.dirty, req.remlen, resp.sessionPresent, resp.dirty, heap("GF.sess"), allfields(sessions.Session), heap("GF.clock"), heap("GF.mlockedAt"), heap("GF.encn"), heap("GF.encarr"), heap("GF.encoff"), heap("GF.encAt")
+
+
+// ---------------------------------------------------------------- accepting a connection (C11)
+// Ghost: nconnack / ackcode / acksp - the CONNACK packets written straight to a connection, the return code and the
+// session-present flag of the last one; nauth / authok - calls of the authenticator and the outcome of the last one;
+// nstarted - services whose goroutines were started; nclosed - Close calls on a connection.
+//@ extern (*github.com/mdzio/go-mqtt/auth.Manager).Authenticate
+//@   flag args m, id, cred
+//@   ensures[ghostdef-auth] gfield(0, "nauth") == old(gfield(0, "nauth"))+1 && (gfield(0, "authok") == 1) == (result == nil) && (gfield(0, "authok") == 0 || gfield(0, "authok") == 1)
+//@   modifies gfield(0, "nauth"), gfield(0, "authok")
+//@ iface net.Conn.RemoteAddr
+//@   trusted
+//@   pure
+//@ iface net.Conn.SetReadDeadline
+//@   trusted
+//@   pure
+//@ func getConnectMessage
+//@   trusted
+//@   results msg, err
+//@   ensures err == nil ==> msg != nil && fresh(msg) && message.vdefConnSizes(msg) && len(msg.mtypeflags) == 1 && !msg.dirty && len(msg.dbuf) <= 268435460
+//@   ensures[C11:codes] typeis(err, message.ConnackCode) ==> isErr(err, message.ErrInvalidProtocolVersion) || isErr(err, message.ErrIdentifierRejected)
+//@   modifies fields(msg)
+//@ func writeMessage
+//@   trusted
+//@   results err
+//@   ensures[ghostdef-connack] gfield(conn, "nconnack") == old(gfield(conn, "nconnack"))+1 && gfield(conn, "ackcode") == int(ifaceval(msg, *message.ConnackMessage).returnCode) && gfield(conn, "acksp") == ite(ifaceval(msg, *message.ConnackMessage).sessionPresent, 1, 0)
+//@   modifies gfield(conn, "nconnack"), gfield(conn, "ackcode"), gfield(conn, "acksp"), ifaceval(msg, *message.header).remlen, ifaceval(msg, *message.header).dirty
+//@ func (*service).start
+//@   trusted
+//@   results err
+//@   ensures[ghostdef-start] gfield(0, "nstarted") == old(gfield(0, "nstarted"))+1
+//@   modifies gfield(0, "nstarted"), fields(svc), modset(TopicStore), heap("GF.nsub"), heap("GF.subarr"), heap("GF.suboff"), heap("GF.sublen"), heap("GF.subreq"), heap("GF.subres"), heap("GF.clock"), heap("GF.mlockedAt")
+
+// Assumed: the package-level error values are ordinary errors (created with errors.New), never CONNACK codes.
+//@ axiom errvars
+//@   is ErrInvalidConnectionType != nil && !typeis(ErrInvalidConnectionType, message.ConnackCode)
+
+// The deferred function of handleConnection: any error return closes the connection.
+//@ closure (*Server).handleConnection$1
+//@   requires err != nil && c != nil && *c != nil
+//@   ensures[C11:close-on-error] *err != nil ==> gfield(*c, "nclosed") == old(gfield(*c, "nclosed"))+1
+//@   ensures[C11:close-on-error] *err == nil ==> gfield(*c, "nclosed") == old(gfield(*c, "nclosed"))
+//@   modifies gfield(*c, "nclosed")
+
+// handleConnection: what the first packet of a connection leads to.
+//@ func (*Server).handleConnection
+//@   results svc, err
+//@   flag noframe
+//@   requires svr.authMgr != nil && svr.sessMgr != nil && svr.sessMgr.p != nil && !held(addr(svr.mu)) && 0 <= svr.ConnectTimeout && svr.ConnectTimeout <= 1000000
+//@   atcall (*service).start assumes err == nil
+//@   ensures[C11:decode-code] gfield(0, "nauth") == old(gfield(0, "nauth")) && typeis(err, message.ConnackCode) ==> gfield(c, "nconnack") == old(gfield(c, "nconnack"))+1 && gfield(c, "ackcode") == int(ifaceval(err, message.ConnackCode)) && gfield(c, "acksp") == 0
+//@   ensures[C11:decode-garbage] gfield(0, "nauth") == old(gfield(0, "nauth")) && err != nil && !typeis(err, message.ConnackCode) ==> gfield(c, "nconnack") == old(gfield(c, "nconnack"))
+//@   ensures[C11:auth-refused] gfield(0, "nauth") == old(gfield(0, "nauth"))+1 && gfield(0, "authok") == 0 ==> err != nil && gfield(c, "nconnack") == old(gfield(c, "nconnack"))+1 && gfield(c, "ackcode") == 4 && gfield(c, "acksp") == 0
+//@   ensures[C11:accepted] err == nil ==> svc != nil && gfield(c, "nconnack") == old(gfield(c, "nconnack"))+1 && gfield(c, "ackcode") == 0 && gfield(0, "nstarted") == old(gfield(0, "nstarted"))+1 && gfield(0, "nauth") == old(gfield(0, "nauth"))+1 && gfield(0, "authok") == 1
+//@   ensures[C11:nothing-before-accept] err != nil && (gfield(0, "nauth") == old(gfield(0, "nauth")) || gfield(0, "authok") == 0) ==> svc == nil && preservedghost("sess") && gfield(0, "nstarted") == old(gfield(0, "nstarted"))
+//@   ensures[C11:closed-on-error] err != nil && c != nil ==> gfield(c, "nclosed") == old(gfield(c, "nclosed"))+1
